@@ -55,11 +55,32 @@ def generic_class():
     return Gen
 
 
+def default_bit_function():
+    """The keyed bit function the anonymizers use when none is passed (default of the 'salter' parameter)."""
+    import inspect
+
+    for cls in (getattr(mod(), "_BaseIpAnonymizer", None), mod().IpAnonymizer):
+        if cls is None:
+            continue
+        try:
+            d = inspect.signature(cls.__init__).parameters["salter"].default
+        except (KeyError, ValueError, TypeError):
+            continue
+        if callable(d):
+            return d
+    return None
+
+
 def env_salter(env):
     """env spec (JSON-able) -> (salt, salter or None).  None = the real keyed hash."""
     kind = env[0]
     if kind == "md5":
-        return env[1], None
+        # the implementation's own keyed bit function, but keyed with the salt exactly as given here, whatever
+        # the anonymizer object keeps as "its" salt
+        given, bit = env[1], default_bit_function()
+        if bit is None:
+            return given, None
+        return given, (lambda _kept, s, _g=given, _f=bit: _f(_g, s))
     if kind in ("flip", "ident", "alt", "parity"):
         return "envsalt", seams.env_salter(kind)
     if kind == "table":
